@@ -882,19 +882,9 @@ impl Value {
             InnerDecimalSchema::Bytes => (),
         };
         match self {
-            Value::Decimal(num) => {
-                let num_bytes = num.len();
-                if max_prec_for_len(num_bytes)? < precision {
-                    Err(Details::ComparePrecisionAndSize {
-                        precision,
-                        num_bytes,
-                    }
-                    .into())
-                } else {
-                    Ok(Value::Decimal(num))
-                }
-                // check num.bits() here
-            }
+            // A decimal is written in as few bytes as its value needs (or sign-extended to the
+            // fixed size), so the number of bytes says nothing about fitting the precision.
+            Value::Decimal(num) => Ok(Value::Decimal(num)),
             Value::Fixed(_, bytes) | Value::Bytes(bytes) => {
                 if max_prec_for_len(bytes.len())? < precision {
                     Err(Details::ComparePrecisionAndSize {
